@@ -292,6 +292,12 @@ func c21CheckWrongPassword(pfx []byte, wrong string) error {
 // skipped=true when the mutation raised an iteration count so far that the
 // call would only burn time.
 func c21CheckMutated(e *c21Export, mut []byte) (verdict string, err error) {
+	return c21CheckMutated2(e, mut, true)
+}
+
+// c21CheckMutated2: comparePEM=false when the harness itself replaced the certificate or key payload inside the
+// file (ToPEM converts bags without parsing the certificate, so it legitimately returns the replaced bytes).
+func c21CheckMutated2(e *c21Export, mut []byte, comparePEM bool) (verdict string, err error) {
 	if pfx, _, ok := c21ParsePFX(mut); ok && (pfx.MacData.Iterations > 20000) {
 		return "skipped-huge-iterations", nil
 	}
@@ -314,7 +320,7 @@ func c21CheckMutated(e *c21Export, mut []byte) (verdict string, err error) {
 	if pan := noPanic(func() { blocks, perr = pkcs12.ToPEM(mut, e.password) }); pan != nil {
 		return "", fmt.Errorf("ToPEM of a mutated file: %v", pan)
 	}
-	if perr == nil {
+	if perr == nil && comparePEM {
 		for _, b := range blocks {
 			if b.Type == "CERTIFICATE" && !bytes.Equal(b.Bytes, e.certDER) {
 				return "", fmt.Errorf("ToPEM of a mutated file succeeded with a different certificate")
@@ -392,6 +398,10 @@ func TestC21(t *testing.T) {
 		c.Assumption("openssl not available: only the KDF part runs")
 	}
 
+	c21StructBaseline(c, t, openssl, dir, pool)
+	structKnobs := c21Knobs()
+	structCerts := map[string][]byte{}
+
 	fail := func(rt *rapid.T, e *c21Export, err error) {
 		rt.Fatalf("VF-VIOLATION: property=C21 %v [%s; pfx %x]", err, e.describe, e.pfx)
 	}
@@ -445,11 +455,15 @@ func TestC21(t *testing.T) {
 	}
 
 	rapid.Check(t, func(rt *rapid.T) {
-		part := weighted(rt, "part", 40, 30, 30)
-		if openssl == "" {
+		part := weighted(rt, "part", 30, 20, 20, 30)
+		if openssl == "" && part < 2 {
 			part = 2
 		}
 		switch part {
+		case 3: // harness-made files with structure-aware malformations behind a valid MAC
+			for j := 0; j < 6; j++ {
+				c21StructCase(c, rt, pool, structKnobs, structCerts)
+			}
 		case 0: // a file made by OpenSSL decodes to exactly what went in; wrong passwords are reported as such
 			e := newExport(rt)
 			// validate the producer and the reference KDF: the MAC must be reproducible
@@ -558,6 +572,8 @@ func TestC21(t *testing.T) {
 				"op=kdf", fmt.Sprintf("kdf:blocks=%d", (size+19)/20), "kdf:pw="+gen.LenClass(len(bmp), 64), "kdf:salt="+gen.LenClass(len(salt), 64))
 		}
 	})
+
+	c21StructEnum(c, t, pool)
 
 	// Enumerated: every byte of the base files overwritten with five values (positions split across shards;
 	// quick walks the first base file, thorough all of them).
